@@ -35,7 +35,7 @@ type input struct {
 func opts(in input, chain []xf.M) rty.XOpts {
 	o := rty.XOpts{MaxDepth: in.Depth, MaxWidth: in.Width, AliasFamilies: xf.AliasFamilies(chain), AliasNum: 1, AliasDen: 4,
 		NamedSome: true, Sets: true, TextU: true, Embedded: true, StructElem: true, Maps: true, Slices: true, Arrays: true,
-		UserPtrs: true, DialsTags: true, Desc: true, PoolNames: true, ElemUnexported: true, ElemNested: true, OddTagValues: true, OddNames: true}
+		UserPtrs: true, DialsTags: true, Desc: true, PoolNames: true, ElemUnexported: true, ElemNested: true, ElemPtrs: true, OddTagValues: true, OddNames: true}
 	for _, m := range chain {
 		if m.From != nil && !namedOnly(in) {
 			o.Favor = m.From
@@ -255,7 +255,7 @@ func main() {
 	}
 	driver.Main(driver.Engine{
 		Prop: prop, CoqImport: "Dials.Check.C10Check", CoqRun: "run_cases",
-		Rule: "random struct types with globally unique field names (nesting, *struct, embedded value/pointer structs, []struct, [2]struct, map[string]struct, maps, sets map[T]struct{} incl. a declared set type and maps to a DECLARED empty struct, field names starting with a non-ASCII upper-case letter (chains without case conversion), durations, TextUnmarshaler structs, named scalars/slices/maps, user pointers, dials/dialsdesc tags, alias tags of the chain's tag families on random fields incl. struct-typed ones), pointerified (1/16 raw, then with unexported fields); random chain = a shipped chain (env, flag, pflag, json/cue, yaml with/without anonymous-flatten, toml, ez's decoder wrap with each field-name encoder), three mixed chains covering every mangler, or a sub-chain of one of them; every translated top-level field filled with a per-case probability in {1/4..1}, nested pointers nil with probability 1/4, 1/6 of the filled fields SET TO THE ZERO VALUE of their type (non-nil pointer to false/0/\"\", empty non-nil slice or map; string-cast texts false / 0 / empty / 0s), string-cast fields with texts drawn for their original type (1/12 malformed); element structs of slices/arrays half of the time with one more level (struct, *struct, embedded (pointer) struct fields), one element in four the zero element and one written scalar in four of the others zero; one case in twelve focused: an anonymous-flatten chain (yaml with FlattenAnonymous, the mangler alone, alias+anon+set-slice, mix1) over a type whose first field is a slice/array of structs embedding a pointer to a struct, every field filled; one case in sixteen starts with an embedded struct of unexported fields only (hoists nothing) followed by an embedded struct with >= 2 fields; one case in sixteen focused on an embedded struct that starts with two adjacent (pointer-to-)struct fields named N and NReplica under the same anonymous-flatten chains; one case in three reverse-translates a SECOND filling with the same Transformer and re-reads the first result afterwards (direct oracle: unchanged; both compared with the model); parse.String outcomes for the texts handed to the model as a table; non-trivial: chain contains a 1->n mangler (alias, flatten, anonymous-flatten) and non-nil leaves were written at >= 2 different depths; distinct = distinct PRNG case states",
+		Rule: "random struct types with globally unique field names (nesting, *struct, embedded value/pointer structs, []struct, [2]struct, map[string]struct, []*struct / [2]*struct with nil elements, maps, sets map[T]struct{} incl. a declared set type and maps to a DECLARED empty struct, field names starting with a non-ASCII upper-case letter (chains without case conversion), durations, TextUnmarshaler structs, named scalars/slices/maps, user pointers, dials/dialsdesc tags, alias tags of the chain's tag families on random fields incl. struct-typed ones), pointerified (1/16 raw, then with unexported fields); random chain = a shipped chain (env, flag, pflag, json/cue, yaml with/without anonymous-flatten, toml, ez's decoder wrap with each field-name encoder), three mixed chains covering every mangler, or a sub-chain of one of them; every translated top-level field filled with a per-case probability in {1/4..1}, nested pointers nil with probability 1/4, 1/6 of the filled fields SET TO THE ZERO VALUE of their type (non-nil pointer to false/0/\"\", empty non-nil slice or map; string-cast texts false / 0 / empty / 0s), string-cast fields with texts drawn for their original type (1/12 malformed); element structs of slices/arrays half of the time with one more level (struct, *struct, embedded (pointer) struct fields), one element in four the zero element and one written scalar in four of the others zero; one case in twelve focused: an anonymous-flatten chain (yaml with FlattenAnonymous, the mangler alone, alias+anon+set-slice, mix1) over a type whose first field is a slice/array of structs embedding a pointer to a struct, every field filled; one case in sixteen starts with an embedded struct of unexported fields only (hoists nothing) followed by an embedded struct with >= 2 fields; one case in sixteen focused on an embedded struct that starts with two adjacent (pointer-to-)struct fields named N and NReplica under the same anonymous-flatten chains; one case in three reverse-translates a SECOND filling with the same Transformer and re-reads the first result afterwards (direct oracle: unchanged; both compared with the model); parse.String outcomes for the texts handed to the model as a table; non-trivial: chain contains a 1->n mangler (alias, flatten, anonymous-flatten) and non-nil leaves were written at >= 2 different depths; distinct = distinct PRNG case states",
 		Gen:  gen, Run: run,
 	})
 }
